@@ -470,7 +470,13 @@ def obligations(tier, seed):
       fix.update(ao=0, bo=0)
     if tier == 'quick':
       fix.update(a0=1, b0=1)
-    acubes.append(Cube(f's{sidx}', [], fix, est=81 * 9))
+    free = [k for k in ('a0', 'a1', 'a2', 'a3', 'b0', 'b1', 'b2', 'b3', 'ao', 'bo') if k not in fix]
+    if 3 ** len(free) > 3000 and 'a1' in free:
+      # too many paths for one cube's time limit: split on the mode of the second parameter
+      for m in range(3):
+        acubes.append(Cube(f's{sidx}_a{m}', [], dict(fix, a1=m), est=3 ** (len(free) - 1)))
+    else:
+      acubes.append(Cube(f's{sidx}', [], fix, est=3 ** len(free)))
   kcubes = []
   for p in range(8):
     for o in range(3):
